@@ -1,2 +1,161 @@
-//! Isolation runner (placeholder until C08 lands)
-pub fn worker_main(_args: &[String]) -> i32 { 2 }
+//! Isolation runner: worker sub-processes for cases that may abort the process (allocation
+//! failure, stack overflow), hang, or need a fresh process image (hash seeds).
+//!
+//! Protocol (worker stdout, unbuffered): `S <case>` before a case, `c <call>` before each library
+//! call, `P <case> <call> <message>` for a caught panic, `K <case>` for a case skipped by the
+//! budget rule, `E <case>` after a case. A worker that dies is attributed to the case and call in
+//! flight and restarted behind it.
+
+use rayon::prelude::*;
+use std::io::{BufRead, BufReader};
+use std::os::unix::process::ExitStatusExt;
+use std::process::{Command, Stdio};
+
+pub fn worker_main(args: &[String]) -> i32 {
+    match args.first().map(|s| s.as_str()) {
+        Some("c16-digests") => crate::props::c16::worker_digests(),
+        Some("c08") => {
+            let a: Vec<String> = args[1..].to_vec();
+            // fixed 8 MiB stack, like a default main thread
+            let h = std::thread::Builder::new().stack_size(8 << 20).spawn(move || crate::props::c08::worker(&a)).unwrap();
+            h.join().unwrap_or(2)
+        }
+        _ => {
+            eprintln!("unknown worker {:?}", args);
+            2
+        }
+    }
+}
+
+/// raw, unbuffered line to stdout (must survive an abort right afterwards)
+pub fn emit(line: &str) {
+    let mut b = line.as_bytes().to_vec();
+    b.push(b'\n');
+    unsafe {
+        let mut off = 0;
+        while off < b.len() {
+            let n = libc::write(1, b[off..].as_ptr() as *const libc::c_void, b.len() - off);
+            if n <= 0 {
+                break;
+            }
+            off += n as usize;
+        }
+    }
+}
+
+pub fn set_limits(as_bytes: u64) {
+    unsafe {
+        let lim = libc::rlimit { rlim_cur: as_bytes, rlim_max: as_bytes };
+        libc::setrlimit(libc::RLIMIT_AS, &lim);
+        let core = libc::rlimit { rlim_cur: 0, rlim_max: 0 };
+        libc::setrlimit(libc::RLIMIT_CORE, &core);
+    }
+}
+pub fn arm_alarm(seconds: u32) {
+    unsafe {
+        libc::alarm(seconds);
+    }
+}
+
+#[derive(Debug, Clone)]
+pub enum Event {
+    Panic { case: usize, call: String, msg: String },
+    Died { case: usize, call: String, how: String },
+    Skipped { case: usize },
+}
+
+/// Run cases [0,total) in worker processes `exe worker <args..> <from> <to>`; returns all non-ok events.
+pub fn run_isolated(args: &[String], total: usize, chunk: usize, machinery_errors: &std::sync::Mutex<Vec<String>>) -> Vec<Event> {
+    let exe = std::env::current_exe().unwrap();
+    let chunks: Vec<(usize, usize)> = (0..total).step_by(chunk.max(1)).map(|a| (a, (a + chunk).min(total))).collect();
+    let mut all: Vec<Event> = chunks
+        .par_iter()
+        .flat_map_iter(|(a, b)| {
+            let mut events = Vec::new();
+            let mut from = *a;
+            let mut respawns = 0;
+            while from < *b {
+                let mut child = match Command::new(&exe).arg("worker").args(args).arg(from.to_string()).arg(b.to_string()).stdout(Stdio::piped()).stderr(Stdio::null()).spawn() {
+                    Ok(c) => c,
+                    Err(e) => {
+                        machinery_errors.lock().unwrap().push(format!("cannot spawn worker: {e}"));
+                        break;
+                    }
+                };
+                let out = child.stdout.take().unwrap();
+                let mut cur_case: Option<usize> = None;
+                let mut cur_call = String::new();
+                let mut last_done: Option<usize> = None;
+                for line in BufReader::new(out).lines() {
+                    let Ok(line) = line else { break };
+                    let mut it = line.splitn(2, ' ');
+                    match (it.next(), it.next()) {
+                        (Some("S"), Some(r)) => {
+                            cur_case = r.trim().parse().ok();
+                            cur_call.clear();
+                        }
+                        (Some("c"), Some(r)) => cur_call = r.to_string(),
+                        (Some("E"), Some(r)) => {
+                            last_done = r.trim().parse().ok();
+                            cur_case = None;
+                        }
+                        (Some("K"), Some(r)) => {
+                            if let Ok(c) = r.trim().parse() {
+                                events.push(Event::Skipped { case: c });
+                            }
+                        }
+                        (Some("P"), Some(r)) => {
+                            let mut p = r.splitn(3, ' ');
+                            let case = p.next().and_then(|x| x.parse().ok()).unwrap_or(0);
+                            let call = p.next().unwrap_or("").to_string();
+                            let msg = p.next().unwrap_or("").to_string();
+                            events.push(Event::Panic { case, call, msg });
+                        }
+                        _ => {}
+                    }
+                }
+                let status = child.wait();
+                match status {
+                    Ok(st) if st.success() => {
+                        from = *b;
+                    }
+                    Ok(st) => {
+                        let how = match st.signal() {
+                            Some(libc::SIGALRM) => "timeout (SIGALRM, per-case wall cap)".to_string(),
+                            Some(libc::SIGSEGV) => "SIGSEGV (stack overflow or invalid access)".to_string(),
+                            Some(libc::SIGABRT) => "SIGABRT (abort: allocation failure / stack overflow handler)".to_string(),
+                            Some(libc::SIGKILL) => "SIGKILL".to_string(),
+                            Some(s) => format!("signal {s}"),
+                            None => format!("exit code {:?}", st.code()),
+                        };
+                        match cur_case {
+                            Some(c) => {
+                                events.push(Event::Died { case: c, call: cur_call.clone(), how });
+                                from = c + 1;
+                            }
+                            None => {
+                                // died between cases: should not happen
+                                machinery_errors.lock().unwrap().push(format!("worker for [{from},{b}) ended with {how} outside any case (last finished {last_done:?})"));
+                                from = last_done.map(|d| d + 1).unwrap_or(*b).max(from + 1);
+                            }
+                        }
+                        respawns += 1;
+                        if respawns > 5000 {
+                            machinery_errors.lock().unwrap().push(format!("too many worker deaths in chunk [{a},{b})"));
+                            break;
+                        }
+                    }
+                    Err(e) => {
+                        machinery_errors.lock().unwrap().push(format!("wait failed: {e}"));
+                        break;
+                    }
+                }
+            }
+            events
+        })
+        .collect();
+    all.sort_by_key(|e| match e {
+        Event::Panic { case, .. } | Event::Died { case, .. } | Event::Skipped { case } => *case,
+    });
+    all
+}
